@@ -89,6 +89,11 @@ def _rand_c08(rng, tier, sc0):
             h = G.rand_history(rng, c2, rng.choice([3, 10, 40]), p_trigger=0.0, p_adv=0.0)
             h[0]["append"] = rng.random() < 0.6
             steps += h
+        if i % 10 == 8:
+            # reopen_output() on an untouched file: what the file holds keeps counting
+            pos = [j for j, st in enumerate(steps) if st["op"] == "Log"]
+            if len(pos) > 2:
+                steps.insert(rng.choice(pos[1:]), {"op": "Reopen"})
         if i % 10 == 9:
             # a cleanup that fails at every rotation (a directory sits where the compressed file should go): the size
             # criterion is not affected by it
@@ -1617,7 +1622,9 @@ def _c10_dir_steps(cls, c, rng):
     if cls == "near_miss":
         return [mk(n) for n in foreign_names(c)]
     if cls == "multibyte_at_infix":
-        return [mk(f"app\u00e9_{i0}{sfx}"), mk(f"app_\u00e9{i0[1:]}{sfx}"), mk(f"ap\u00fc_{i0}{sfx}"), mk(f"app_\U0001f600{sfx}")]
+        return [mk(f"app\u00e9_{i0}{sfx}"), mk(f"app_\u00e9{i0[1:]}{sfx}"), mk(f"ap\u00fc_{i0}{sfx}"), mk(f"app_\U0001f600{sfx}"),
+                # names that end with the text of the suffix but without the dot, a multi-byte character right before it
+                mk(f"app_\u00e9{sfx[1:]}"), mk(f"app_{i0[:-1]}\u00e9{sfx[1:]}"), mk(f"app_\U0001f600{sfx[1:]}")]
     if cls == "multibyte_in_infix":
         return [mk(f"app_{i0[:-1]}\u00e9{sfx}"), mk(f"app_{i0[:3]}\u65e5{i0[4:]}{sfx}"), mk(f"app_{i0}\u00e9{sfx}"),
                 mk(f"app_{i0}.restart-00\u00e9\u00e9{sfx}")]
